@@ -591,6 +591,7 @@ func budgetFieldOf(prog *Program, maxExprOpt *ssa.Function) string {
 	}
 	return "maxExprCnt"
 }
+
 // onlyEnteredFrom: fn is an unexported function of the module that is itself only entered (statically or through an
 // interface) from the allowed functions, or from functions of which the same holds (bounded).
 func onlyEnteredFrom(prog *Program, fn *ssa.Function, allowed map[string]bool, depth int) bool {
